@@ -121,12 +121,15 @@ def run_case(case):
             cd = [max(x, y) for x, y in zip(a[2], b[2])]
             td = ref.trace_distance(ref.pad(a[3], a[2], cd), ref.pad(b[3], b[2], cd))
             trunc = any(s_["k"] == "op" and s_["op"]["type"] in ("fock:Displace", "fock:Squeeze") for s_ in case["steps"][: i + 1])
-            if td > (1e-2 if trunc else 1e-7):
+            # nearly pure states: the documented purity tolerance (1e-6) lets the contracting twin replace
+            # them by their dominant eigenvector, a move of the order of the deficit (< 1e-5 by construction)
+            near = any(b_.get("state", {}).get("cls") == "nearlypure" for b_ in case["layout"]) or any(s_.get("unsharp") is not None for s_ in case["steps"])
+            if td > (1e-2 if trunc else (3e-5 if near else 1e-7)):
                 raise Violation("twin-state", f"after step {i} ({case['steps'][i]['k']}) the joint state with contraction on and with contraction {mode} differ by {td:.3e}", site)
             if len(a[4]) != len(b[4]):
                 raise Violation("twin-draws", f"step {i}: {len(a[4])} random draws with contraction on, {len(b[4])} with {mode}", site)
             for pa, pb in zip(a[4], b[4]):
-                if pa.shape != pb.shape or np.max(np.abs(pa - pb)) > 1e-7:
+                if pa.shape != pb.shape or np.max(np.abs(pa - pb)) > (3e-5 if near else 1e-7):
                     raise Violation("twin-probabilities", f"step {i}: measurement distribution {np.round(pa, 6).tolist()} (contraction on) vs {np.round(pb, 6).tolist()} ({mode})", site)
             compared += 1
     for mode, stt in statuses.items():
